@@ -82,7 +82,10 @@ func genC05Addr(r *mrand.Rand, hostile bool) c05Addr {
 	if !isDotAtom(a.Local) {
 		spec = quoteLocalRFC5322(a.Local) + "@" + a.Domain
 	}
-	switch r.Intn(4) {
+	switch r.Intn(5) {
+	case 4:
+		// handed to the *Format setters (display name and address as two arguments)
+		a.Spell, a.Written = "format:"+gen.Pick(r, []string{"Some Name", "Quote \" and \\ name", "Ünï Cödé", "comma, name", ""}), spec
 	case 0:
 		a.Spell, a.Written = "bare", spec
 	case 1:
@@ -121,25 +124,32 @@ func runC05Case(r *ev.Run, c c05Case) {
 	m.Subject("c05")
 	m.SetBodyString(mail.TypeTextPlain, "body\r\n")
 	rejected := false
-	set := func(fn func(string) error, a c05Addr, which string) {
-		if err := fn(a.Written); err != nil {
+	set := func(fn func(string) error, ffn func(string, string) error, a c05Addr, which string) {
+		var err error
+		if name, ok := strings.CutPrefix(a.Spell, "format:"); ok {
+			err = ffn(name, a.Written)
+			r.Count("addresses_set_with_format_setters", 1)
+		} else {
+			err = fn(a.Written)
+		}
+		if err != nil {
 			rejected = true
 			r.Count("addresses_rejected_by_setter", 1)
 			r.Seen("rejected", which+":"+a.Local)
 		}
 	}
-	set(m.From, c.From, "from")
+	set(m.From, m.FromFormat, c.From, "from")
 	if c.EnvFrom != nil {
-		set(m.EnvelopeFrom, *c.EnvFrom, "envfrom")
+		set(m.EnvelopeFrom, m.EnvelopeFromFormat, *c.EnvFrom, "envfrom")
 	}
 	for _, a := range c.To {
-		set(m.AddTo, a, "to")
+		set(m.AddTo, m.AddToFormat, a, "to")
 	}
 	for _, a := range c.Cc {
-		set(m.AddCc, a, "cc")
+		set(m.AddCc, m.AddCcFormat, a, "cc")
 	}
 	for _, a := range c.Bcc {
-		set(m.AddBcc, a, "bcc")
+		set(m.AddBcc, m.AddBccFormat, a, "bcc")
 	}
 	if rejected {
 		// the intended envelope is not what the message carries any more; only line well-formedness is judged
@@ -433,7 +443,7 @@ func sameSet(a, b string) bool {
 
 func runC05(r *ev.Run, rep *ev.ReplayDoc) ev.Summary {
 	sum := ev.Summary{
-		Rule: "addresses built from (local part, domain) pairs - dot-atoms and quoted-string local parts with blank, <, >, @, comma, ;, :, backslash, quote, UTF-8 and smuggling payloads such as 'a> NOTIFY=NEVER ORCPT=rfc822;x <b' - in four spellings, as From / EnvelopeFrom / To / Cc / Bcc (every local part in every role); HELO names with blanks, tabs, CR, LF, embedded commands, 600 characters; credentials with CR/LF/blanks/controls for PLAIN, LOGIN, CRAM-MD5, XOAUTH2, SCRAM; every DSN option set the typed setters accept or must reject; capability subsets. Every raw line received outside DATA is parsed with the strict RFC 5321 grammar. distinct by case",
+		Rule: "addresses built from (local part, domain) pairs - dot-atoms and quoted-string local parts with blank, <, >, @, comma, ;, :, backslash, quote, UTF-8 and smuggling payloads such as 'a> NOTIFY=NEVER ORCPT=rfc822;x <b' - in four spellings and through the *Format setters, as From / EnvelopeFrom / To / Cc / Bcc (every local part in every role); HELO names with blanks, tabs, CR, LF, embedded commands, 600 characters; credentials with CR/LF/blanks/controls for PLAIN, LOGIN, CRAM-MD5, XOAUTH2, SCRAM; every DSN option set the typed setters accept or must reject; capability subsets. Every raw line received outside DATA is parsed with the strict RFC 5321 grammar. distinct by case",
 		Assumptions: []string{
 			"the intended mailbox is known by construction (local part + domain); a case whose address a setter rejected is only judged for line well-formedness",
 			"a stray '*' after a final AUTH reply is C04's known finding and not attributed to this property",
